@@ -1165,6 +1165,22 @@ impl PaZipCompressor {
     }
 }
 
+#[cfg(zipora_verif)]
+impl PaZipCompressor {
+    /// Verification hook: write the record of one compression strategy exactly as
+    /// `compress` does, so that the record writer can be checked against `decompress`
+    /// for strategies the match finders do not currently produce.
+    pub fn verif_apply_strategy(
+        &mut self,
+        input: &[u8],
+        pos: usize,
+        strategy: CompressionStrategy,
+        output: &mut Vec<u8>,
+    ) -> Result<usize> {
+        self.apply_compression_strategy(input, pos, strategy, output)
+    }
+}
+
 /// Helper trait to convert between match types
 trait MatchConversion {
     fn from_local_match(local: LocalMatch, compression_type: CompressionType) -> Self;
